@@ -208,10 +208,17 @@ def Outcome.parse? : Sexp → Option Outcome
 def outToSexp (stack : List (Pop Bits)) (o : Outcome) : Sexp :=
   .list [.list [.atom "res", o.toSexp], .list (.atom "stack" :: stack.map Pop.toSexp)]
 
-/-- Reads the witness off the observed result: the kept individuals' positions in
-`parents ++ offspring` (found by tag), followed by the remaining positions in ascending order. -/
+/-- Reads the witness off the observed result: for every kept individual the first not yet used
+position in `parents ++ offspring` holding an equal individual (tags may repeat when offspring are
+clones of parents), followed by the remaining positions in ascending order. -/
+def recoverKept (all : Pop Bits) : Pop Bits → List Nat → List Nat
+  | [], used => used.reverse
+  | x :: xs, used =>
+    let cand := (List.range all.length).find? fun i => !used.contains i && all[i]? == some x
+    recoverKept all xs (cand.getD all.length :: used)
+
 def recoverWitness (all r : Pop Bits) : List Nat :=
-  let kept := r.map fun x => all.findIdx (fun y => y.tag == x.tag)
+  let kept := recoverKept all r []
   kept ++ (List.range all.length).filter (fun i => !kept.contains i)
 
 structure CaseResult where
